@@ -52,6 +52,12 @@ pub struct RlCase {
     pub limit: usize,
     pub period: u64,
     pub timeout: Rel,
+    /// timeout_duration(Duration::MAX): callers wait for as long as it takes (nobody is rejected)
+    #[serde(default)]
+    pub timeout_forever: bool,
+    /// order in which the builder setters are called (see gen::apply_in_order)
+    #[serde(default)]
+    pub setter_order: u8,
     pub clones: u8,
     pub callers: Vec<RlCaller>,
     pub order: Vec<u8>,
@@ -119,13 +125,16 @@ fn case_strategy(tier: Tier) -> BoxedStrategy<RlCase> {
         prop::collection::vec(caller, 1..=callers_hi),
         prop::collection::vec(any::<u8>(), 0..=40),
         prop_oneof![3 => Just(None), 1 => (rel(10), rel(5)).prop_map(Some)],
+        (prop::bool::weighted(0.08), 0u8..8),
     )
         .prop_map(
-            |(window, limit, period, timeout, clones, callers, order, stall)| RlCase {
+            |(window, limit, period, timeout, clones, callers, order, stall, (timeout_forever, setter_order))| RlCase {
                 window,
                 limit,
                 period,
                 timeout,
+                timeout_forever,
+                setter_order,
                 clones,
                 callers,
                 order,
@@ -222,7 +231,9 @@ async fn interp(case: &RlCase) -> Verdict {
     let mut sim = Sim::new(log.clone(), case.order.clone());
     let p = case.period;
     let limit = case.limit;
-    let timeout = case.timeout.ms(p);
+    let forever = case.timeout_forever;
+    // "unbounded" for the deadline arithmetic below (about 35 years of virtual time)
+    let timeout = if forever { 1u64 << 40 } else { case.timeout.ms(p) };
     let lats: Vec<u64> = case.callers.iter().map(|c| c.lat).collect();
     let inner = Scripted::new(log.clone(), 1, move |req, _, _| {
         Step::ok(lats.get(req.id as usize).copied().unwrap_or(0))
@@ -232,12 +243,23 @@ async fn interp(case: &RlCase) -> Verdict {
         1 => WindowType::SlidingLog,
         _ => WindowType::SlidingCounter,
     };
-    let layer = RateLimiterLayer::builder()
-        .limit_for_period(limit)
-        .refresh_period(Duration::from_millis(p))
-        .timeout_duration(Duration::from_millis(timeout))
-        .window_type(wt)
-        .build();
+    let layer = crate::gen::apply_in_order(
+        RateLimiterLayer::builder(),
+        vec![
+            Box::new(move |b| b.limit_for_period(limit)),
+            Box::new(move |b| b.refresh_period(Duration::from_millis(p))),
+            Box::new(move |b| {
+                b.timeout_duration(if forever {
+                    Duration::MAX
+                } else {
+                    Duration::from_millis(timeout)
+                })
+            }),
+            Box::new(move |b| b.window_type(wt)),
+        ],
+        case.setter_order,
+    )
+    .build();
     let base = layer.layer(inner.clone());
     let mut clones: Vec<_> = (0..case.clones).map(|_| base.clone()).collect();
 
@@ -261,7 +283,14 @@ async fn interp(case: &RlCase) -> Verdict {
         }
     }
     let overlaps_stall = |from: u64, to: u64| stall.map_or(false, |(s0, s1)| from < s1 && to >= s0);
-    let horizon = at.iter().copied().max().unwrap_or(0).max(stall.map_or(0, |s| s.1)) + timeout + 3 * p + 25;
+    let horizon = at.iter().copied().max().unwrap_or(0).max(stall.map_or(0, |s| s.1))
+        + if forever {
+            // long enough for a queue of callers to drain window by window (bounded for cost)
+            ((case.callers.len() as u64 + 3) * 2 * p).min(4_000)
+        } else {
+            timeout + 3 * p
+        }
+        + 25;
     let mut task: Vec<Option<usize>> = vec![None; n];
     let mut cancelled_waiting = vec![false; n];
     let mut cancelled = vec![false; n];
@@ -413,6 +442,8 @@ async fn interp(case: &RlCase) -> Verdict {
         match resolve {
             Some((t, Outcome::Layer(name))) => {
                 rejected += 1;
+                // (a rejection before the timeout has run out is allowed by the statement: the limiter
+                // re-checks once after its wait and gives up if other waiters took that window's permits)
                 if name != "RateLimited" {
                     v.c15.push(format!("caller {i} rejected with {name}"));
                 }
@@ -441,7 +472,7 @@ async fn interp(case: &RlCase) -> Verdict {
                     .push(format!("caller {i}: unexpected outcome {:?}", resolve));
             }
             None => {
-                if !cancelled[i] {
+                if !cancelled[i] && !forever {
                     v.c15
                         .push(format!("caller {i} never resolved within the horizon"));
                 }
@@ -580,6 +611,9 @@ async fn interp(case: &RlCase) -> Verdict {
     }
     if stall.is_some() {
         v.classes.push("executor_stall");
+    }
+    if forever {
+        v.classes.push("timeout_duration_max");
     }
     v.classes.push(match case.window {
         0 => "fixed",
